@@ -54,6 +54,7 @@ def ulStyleOf (rc : RenderCfg) (us : Nat) : Nat :=
   else if us = 3 ∧ !rc.d.curlyUnder.isEmpty then 3
   else if us = 4 ∧ !rc.d.dottedUnder.isEmpty then 4
   else if us = 5 ∧ !rc.d.dashedUnder.isEmpty then 5
+  else if rc.ti.underline.isEmpty then 0   -- no `smul` (sun, sun-color): nothing is written, nothing is underlined
   else 1
 
 def bit (attrs b : Nat) : Bool := attrs / b % 2 = 1
@@ -93,10 +94,14 @@ def CurRep (t : Term) (x y : Int) : Prop :=
 /-- state the library cannot re-establish on a terminal whose description lacks the capability — so it has to hold from the
     start and the environment must not disturb it: no hyperlink is active when the screen has no hyperlink strings
     (tscreen.go:905 writes nothing then); the cursor is visible when there is no cursor-visibility string (`cnorm`/`civis`
-    absent: showCursor writes nothing, hideCursor parks the cursor in the bottom-right corner instead, tscreen.go:1037) -/
+    absent: showCursor writes nothing, hideCursor parks the cursor in the bottom-right corner instead, tscreen.go:1037); and the
+    terminal is of the kind the description describes as far as FF is concerned -/
 structure Quiet (rc : RenderCfg) (t : Term) : Prop where
   link : rc.d.enterUrl = [] → t.linkKnown = true ∧ t.pen.link = none
   vis : rc.ti.hideCursor = [] → t.modes.cursorVisible = true
+  /-- a terminal whose `clear` string is FF (form feed) is one that clears the display on FF — the Sun console; the reference
+      emulator does so when configured with `ffClears` (a property of the terminal, not a state: no input changes it) -/
+  ff : Tcell.Spec.TermCaps.stripPadding rc.ti.clear = [12] → t.cfg.ffClears = true
 
 /-- `Rep dc rc t a`: the byte-level emulator state `t` represents the abstract terminal `a` -/
 structure Rep (dc : DrawCfg) (rc : RenderCfg) (t : Term) (a : ATerm) : Prop where
@@ -342,7 +347,8 @@ theorem rep_transfer {dc : DrawCfg} {rc : RenderCfg} {t t' : Term} {a a' : ATerm
     (conts : ∀ i j : Nat, (t'.grid.get (i + 1) j).cont = true → a'.grid ((i : Int) + 1) j = .cont ∨ a'.grid i j = .garbage)
     (cur : ∀ x y : Int, a'.cur = some (x, y) → 0 ≤ x → 0 ≤ y → CurRep t' x y) : Rep dc rc t' a' :=
   { good := R.good.of_same s,
-    quiet := ⟨fun h => by rw [s.linkKnown, s.pen]; exact R.quiet.link h, fun h => by rw [s.modes]; exact R.quiet.vis h⟩,
+    quiet := ⟨fun h => by rw [s.linkKnown, s.pen]; exact R.quiet.link h, fun h => by rw [s.modes]; exact R.quiet.vis h,
+              fun h => by rw [s.cfg]; exact R.quiet.ff h⟩,
     w := by rw [s.w, hw]; exact R.w, h := by rw [s.h, hh]; exact R.h, cells := cells, conts := conts,
     cur := cur,
     pen := by intro st h; rw [hpen] at h; rw [s.penKnown, s.linkKnown, s.pen]; exact R.pen st h,
